@@ -64,6 +64,16 @@ level!(level1, leaf);
 level!(level2, level1);
 level!(level3, level2);
 
+/// Split depth 1: with the three indices {1, 63, 64} the bit producer can split
+/// exactly once (on layer 1, between the two layer-0 words), so depth 1 already
+/// covers every split tree of this universe.
+pub fn bridge_stub_d1<P, C>(producer: P, consumer: C) -> C::Result
+where
+    P: UnindexedProducer,
+    C: UnindexedConsumer<P::Item>,
+{
+    level1(producer, consumer)
+}
 /// Replacement for `rayon::iter::plumbing::bridge_unindexed` (split depth 2).
 pub fn bridge_stub_d2<P, C>(producer: P, consumer: C) -> C::Result
 where
@@ -225,4 +235,14 @@ harness! {
     fn q_par_mut_d2() unwind(8) { par_mut(IDS) }
 }
 
-pub const REGISTRY: &[(&str, fn())] = &[("q_par_shared_d2", q_par_shared_d2), ("q_par_mut_d2", q_par_mut_d2)];
+harness! {
+    #[cfg_attr(kani, kani::stub(rayon::iter::plumbing::bridge_unindexed, bridge_stub_d1))]
+    fn q_par_shared_d1() unwind(8) { par_shared(IDS) }
+}
+harness! {
+    #[cfg_attr(kani, kani::stub(rayon::iter::plumbing::bridge_unindexed, bridge_stub_d1))]
+    fn q_par_mut_d1() unwind(8) { par_mut(IDS) }
+}
+
+pub const REGISTRY: &[(&str, fn())] = &[("q_par_shared_d2", q_par_shared_d2), ("q_par_mut_d2", q_par_mut_d2),
+    ("q_par_shared_d1", q_par_shared_d1), ("q_par_mut_d1", q_par_mut_d1)];
